@@ -132,6 +132,7 @@ class StageTrace:
         self.parent_pid = os.getpid()
         os.makedirs(trace_dir, exist_ok=True)
         self._seq = 0
+        self._stack = []
 
     def _emit(self, rec):
         self._seq += 1
@@ -176,10 +177,16 @@ class StageTrace:
                 rec['arr'] = arrs
             except Exception as e:  # never let the monitor break the call
                 rec['bind_error'] = repr(e)
+            rec['parent'] = tr._stack[-1] if tr._stack else None
+            rec['depth'] = len(tr._stack)
             if tr.pre_hook is not None:
                 tr.pre_hook(stage, rec)
             tr._emit(rec)
-            return orig(*a, **k)
+            tr._stack.append(stage)
+            try:
+                return orig(*a, **k)
+            finally:
+                tr._stack.pop()
         return wrapper
 
     def __enter__(self):
